@@ -56,3 +56,19 @@ package proto
 //@ func MapField.SetKey
 //@   prop C20
 //@   assert /mf.mp.Set\(kx.MapKey\(\), vx\)/ frozen_map_is_never_written: !*mf.frozen
+
+// ---- enum fields (C20): whatever is stored in an enum field is a value of that very enum --
+// identified by the descriptor, not by its (possibly shared) short name
+//@ func enumValueOf
+//@   prop C20
+//@   ensures value_belongs_to_the_enum: result1 == nil ==> !isnil(result0) && eparent(result0) == enum
+
+// ---- copy on assignment (C20): assigning a repeated or map field copies the elements into the
+// message's own list/map (obtained with Mutable); the list or map object behind a Starlark wrapper
+// is never installed in another message, so no two messages -- with their separate frozen flags --
+// come to share one. setField (and what it calls) therefore never wraps a List or Map in a Value.
+//@ reads_not [C20] setField : google.golang.org/protobuf/reflect/protoreflect.ValueOfList, google.golang.org/protobuf/reflect/protoreflect.ValueOfMap
+
+// ---- determinism and thread-compatibility (C03, C05): no function of the package writes a
+// package-level variable at run time (what one execution left there another would read)
+//@ globals_readonly [C03,C05] none
